@@ -173,11 +173,12 @@ for m in sorted(glob.glob('/verif/seeded/*/meta.json')):
     j=json.load(open(m))
     out.append("| %s | %s | %s |" % (os.path.basename(os.path.dirname(m)), esc(j['needs_to_manifest']), esc(j['detection'])))
 out.append('''
-Still missed in the quick tier: **C01-m1** (caught by the thorough tier only), and **C11-m3**, **C12-m3** (third round; missed
-by both tiers).  C11-m3 lives in `mesh_multiplane`, which the C11 check does not claim (section 9.3); C12-m3 needs a BATCH of
-rays in one call (an earlier ray with a candidate behind its origin, a later ray with two hits ahead) while every C12 ray unit
-casts a single symbolic ray - so the per-ray contract holds and the cross-ray misalignment of `distance` is invisible.  Both
-are honest gaps of the present units, recorded with the strengthening each needs in its meta.json; neither check was loosened.
+Still missed in the quick tier: **C01-m1** (caught by the thorough tier only), and **C11-m3** (third round; missed by both
+tiers): it lives in `mesh_multiplane`, which the C11 check does not claim (section 9.3) - an honest gap recorded with the
+strengthening it needs in its meta.json; the check was not loosened.  **C12-m3** (first-hit selection with a `distance` array
+not filtered together with the hits) was missed at first because every C12 ray unit cast a single symbolic ray; it is caught
+by the new `ray-batch-two-triangles*` units (two rays in one call, the first starting at a symbolic fraction between the two
+crossings so that an oblique triangle just behind its origin is still a candidate).
 Third round (C05-m3, C06-m3, C13-m3, C19-m3): three caught as they were, C13-m3 (composition order of two lazy transposes)
 missed at first and caught after the encoding unit got stacked ('chain') views - which also drove the already known mask()
 defects through a second view (one new known-finding key).  Everything else is caught by the quick
